@@ -1,5 +1,5 @@
 """C12  Fq2 arithmetic is arithmetic in Fq[u]/(u^2+2)."""
-from .. import gen, rm, points
+from .. import gen, rm, points, paths
 from ..mon import check, f2hex, is_abnormal
 from ..rm import q, R, h32, f2add, f2sub, f2mul, f2neg, F2
 
@@ -221,6 +221,8 @@ def run(ctx, spec):
             exp.append(('sop.%d' % T, 'ok ' + h32(v), ('sop', tuple(a), tuple(b)), True))
             c = carries([rm.mont(v_, q) for v_ in a], [rm.mont(v_, q) for v_ in b])
             ctx.classes['carry.sop%d/%d' % (T, c)] += 1
+            for e in paths.sop_events([rm.mont(v_, q) for v_ in a], [rm.mont(v_, q) for v_ in b], q):
+                ctx.count('path:T=%d:%s' % (T, e))
     ans = ctx.run(lines)
     for line, an, (cls, want, key, nontriv) in zip(lines, ans, exp):
         if isinstance(want, tuple):
